@@ -213,21 +213,54 @@ Definition json_scalar_ok (e : aentry) (p : list bstr) : bool := scalar_ok_on (j
 
 Definition noop_array (h : bstr) : bool := negb (bstr_eqb h B"beginPagesArray") && negb (bstr_eqb h B"beginSetPageLabelsArray").
 
-Definition json_entry_ok (e : aentry) : bool :=
-  let k := camel (ae_flag e) in
-  schema_has_child [] k &&
-  if main_scalar e then
-    json_scalar_ok e [k] && match schema_node [k] with Some SString => true | _ => false end
-  else
-    match find is_jmanual (j_entries [k]) with Some _ => false | None => true end &&
-    match find is_jarray (j_entries [k]) with Some je => noop_array (handler_name je) | None => false end &&
-    negb (is_nil (j_entries [k])) &&
-    json_scalar_ok e [k; ARRK] &&
-    match schema_node [k] with Some SArray => true | _ => false end &&
-    match schema_node [k; ARRK] with Some SString => true | _ => false end.
+(* the facts are stated over abstract arguments (entry lists, schema nodes) so that proofs never compute inside the generated tables *)
+Definition is_sstring (sn : option snode) : bool := match sn with Some SString => true | _ => false end.
+Definition is_sarray (sn : option snode) : bool := match sn with Some SArray => true | _ => false end.
 
-Lemma json_entries_ok : forallb json_entry_ok (filter main_opt argv_table) = true.
+Definition scalar_facts (hc : bool) (es : list jentry) (sn : option snode) (e : aentry) : bool :=
+  hc && scalar_ok_on es e && is_sstring sn.
+Definition array_facts (hc : bool) (es es2 : list jentry) (sn sn2 : option snode) (e : aentry) : bool :=
+  hc && match find is_jmanual es with Some _ => false | None => true end &&
+  match find is_jarray es with Some je => noop_array (handler_name je) | None => false end &&
+  negb (is_nil es) && scalar_ok_on es2 e && is_sarray sn && is_sstring sn2.
+
+Definition json_scalar_entry_ok (e : aentry) : bool :=
+  scalar_facts (schema_has_child [] (camel (ae_flag e))) (j_entries [camel (ae_flag e)]) (schema_node [camel (ae_flag e)]) e.
+Definition json_array_entry_ok (e : aentry) : bool :=
+  array_facts (schema_has_child [] (camel (ae_flag e))) (j_entries [camel (ae_flag e)]) (j_entries [camel (ae_flag e); ARRK])
+              (schema_node [camel (ae_flag e)]) (schema_node [camel (ae_flag e); ARRK]) e.
+
+Lemma json_scalar_entries_ok : forallb json_scalar_entry_ok (filter main_scalar argv_table) = true.
 Proof. vm_compute. reflexivity. Qed.
+Lemma json_array_entries_ok : forallb json_array_entry_ok (filter main_array argv_table) = true.
+Proof. vm_compute. reflexivity. Qed.
+
+Lemma scalar_facts_inv : forall hc es sn e, scalar_facts hc es sn e = true ->
+  hc = true /\ scalar_ok_on es e = true /\ sn = Some SString.
+Proof.
+  intros hc es sn e H. unfold scalar_facts in H.
+  apply andb_true_iff in H. destruct H as [H H3]. apply andb_true_iff in H. destruct H as [H1 H2].
+  repeat split; auto. destruct sn as [[]|]; try discriminate. reflexivity.
+Qed.
+
+Lemma array_facts_inv : forall hc es es2 sn sn2 e, array_facts hc es es2 sn sn2 e = true ->
+  hc = true /\ find is_jmanual es = None /\ (exists je, find is_jarray es = Some je /\ noop_array (handler_name je) = true) /\
+  es <> [] /\ scalar_ok_on es2 e = true /\ sn = Some SArray /\ sn2 = Some SString.
+Proof.
+  intros hc es es2 sn sn2 e H. unfold array_facts in H.
+  apply andb_true_iff in H. destruct H as [H H7]. apply andb_true_iff in H. destruct H as [H H6].
+  apply andb_true_iff in H. destruct H as [H H5]. apply andb_true_iff in H. destruct H as [H H4].
+  apply andb_true_iff in H. destruct H as [H H3]. apply andb_true_iff in H. destruct H as [H1 H2].
+  split; [exact H1|]. split.
+  { destruct (find is_jmanual es); [discriminate|reflexivity]. }
+  split.
+  { destruct (find is_jarray es) as [je|]; [|discriminate]. exists je. auto. }
+  split.
+  { destruct es; [discriminate|congruence]. }
+  split; [exact H5|]. split.
+  - destruct sn as [[]|]; try discriminate. reflexivity.
+  - destruct sn2 as [[]|]; try discriminate. reflexivity.
+Qed.
 
 Definition jrej_kind (e : aentry) : N := match ae_kind e with KBare => 20 | _ => 21 end.
 
@@ -406,11 +439,9 @@ Definition a_after (it : item) (s : astate) : astate :=
   | _ => s
   end.
 
-Lemma entry_ok_of_wf : forall e, In e argv_table -> main_opt e = true -> argv_entry_ok e = true /\ json_entry_ok e = true.
+Lemma entry_ok_of_wf : forall e, In e argv_table -> main_opt e = true -> argv_entry_ok e = true.
 Proof.
-  intros e Hin Hm. split.
-  - pose proof argv_entries_ok as H. rewrite forallb_forall in H. apply H. apply filter_In. auto.
-  - pose proof json_entries_ok as H. rewrite forallb_forall in H. apply H. apply filter_In. auto.
+  intros e Hin Hm. pose proof argv_entries_ok as H. rewrite forallb_forall in H. apply H. apply filter_In. auto.
 Qed.
 
 Lemma wf_item_main_opt : forall it e, (exists v, it = IOpt e v) \/ (exists vs, it = IArr e vs) -> wf_item argv_table it ->
@@ -431,14 +462,14 @@ Proof.
   destruct it as [e v|e vs|f|f| |].
   - (* IOpt *)
     destruct (wf_item_main_opt (IOpt e v) e (or_introl (ex_intro _ v eq_refl)) Hwf) as [Hin Hm].
-    destruct (entry_ok_of_wf e Hin Hm) as [Hok _].
+    pose proof (entry_ok_of_wf e Hin Hm) as Hok.
     pose proof (a_loop_vals files sole e Hm Hok [v] rest s Ht) as H. cbn [map app] in H. cbn [argv_of_item app].
     rewrite H. cbn [denote_vals denote_item]. destruct (opt_denote e v) as [c|]; cbn.
     + split; [reflexivity|]. destruct s; unfold a_inv in *; cbn in *; auto.
     + split; [reflexivity|]. unfold a_inv; auto.
   - (* IArr *)
     destruct (wf_item_main_opt (IArr e vs) e (or_intror (ex_intro _ vs eq_refl)) Hwf) as [Hin Hm].
-    destruct (entry_ok_of_wf e Hin Hm) as [Hok _].
+    pose proof (entry_ok_of_wf e Hin Hm) as Hok.
     cbn [argv_of_item denote_item]. rewrite (a_loop_vals files sole e Hm Hok vs rest s Ht).
     destruct (denote_vals e vs) as [cs ok]. cbn [fst snd a_after item_rej pos_next].
     split; [destruct ok; reflexivity|]. apply a_emits_inv. unfold a_inv; auto.
@@ -513,4 +544,329 @@ Lemma argv_refines_spec_partial_lemma : forall files j, wf_job argv_table j ->
 Proof.
   intros files j [Hwf Hpos]. unfold front_argv.
   apply (a_loop_job files _ j a_init false false Hwf Hpos). unfold a_inv. auto.
+Qed.
+
+(* ================================================================== the JSON front end refines the specification *)
+Fixpoint j_emits (cs : list cfg_call) (s : jstate) : jstate :=
+  match cs with [] => s | c :: r => j_emits r (j_emit c s) end.
+
+Lemma j_emits_calls : forall cs s, j_calls (j_emits cs s) = rev cs ++ j_calls s.
+Proof.
+  induction cs; simpl; intros s; [reflexivity|]. rewrite IHcs. destruct s; simpl. rewrite <- app_assoc. reflexivity.
+Qed.
+
+(* ---- schema check of rendered members *)
+Lemma check_schema_str : forall p x,
+  check_schema p (JJStr x) =
+  match (match p with [] => Some SDict | _ => schema_node p end) with
+  | None => false
+  | Some SString => true
+  | Some SNull => false
+  | Some SDict => false
+  | Some SArray => match schema_node (p ++ [ARRK]) with Some SString => true | _ => false end
+  end.
+Proof. intros. destruct p; reflexivity. Qed.
+
+Fixpoint all_items_ok (p : list bstr) (l : list jjv) : bool :=
+  match l with [] => true | x :: r => check_schema (p ++ [ARRK]) x && all_items_ok p r end.
+
+Lemma check_schema_arr : forall k l,
+  schema_node [k] = Some SArray -> check_schema [k] (JJArr l) = all_items_ok [k] l.
+Proof.
+  intros k l H. induction l as [|x l IH].
+  - cbn [check_schema all_items_ok]. rewrite H. reflexivity.
+  - cbn [check_schema all_items_ok] in *. rewrite H in *. rewrite IH. reflexivity.
+Qed.
+
+Lemma all_items_str : forall k vs, schema_node [k; ARRK] = Some SString -> all_items_ok [k] (map JJStr vs) = true.
+Proof.
+  intros k vs H. induction vs; cbn [map all_items_ok]; [reflexivity|].
+  rewrite check_schema_str. cbn [app]. rewrite H. exact IHvs.
+Qed.
+
+Fixpoint members_ok (l : list (bstr * jjv)) : bool :=
+  match l with
+  | [] => true
+  | (k, x) :: r => (if schema_has_child [] k then check_schema [k] x else false) && members_ok r
+  end.
+
+Lemma check_schema_top : forall l, check_schema [] (JJObj l) = members_ok l.
+Proof.
+  induction l as [|[k x] l IH].
+  - reflexivity.
+  - cbn [check_schema members_ok app] in *. rewrite IH. reflexivity.
+Qed.
+
+Lemma main_array_not_scalar : forall e, main_array e = true -> main_scalar e = false.
+Proof.
+  intros e H. unfold main_array, main_scalar in *.
+  repeat (apply andb_true_iff in H; destruct H as [H ?]). rewrite H1. cbn. rewrite andb_false_r. reflexivity.
+Qed.
+
+Lemma json_scalar_facts : forall e, In e argv_table -> main_scalar e = true ->
+  schema_has_child [] (camel (ae_flag e)) = true /\ scalar_ok_on (j_entries [camel (ae_flag e)]) e = true /\
+  schema_node [camel (ae_flag e)] = Some SString.
+Proof.
+  intros e Hin Hs. pose proof json_scalar_entries_ok as H. rewrite forallb_forall in H.
+  apply scalar_facts_inv. apply (H e). apply filter_In. auto.
+Qed.
+
+Lemma json_array_facts : forall e, In e argv_table -> main_array e = true ->
+  schema_has_child [] (camel (ae_flag e)) = true /\ find is_jmanual (j_entries [camel (ae_flag e)]) = None /\
+  (exists je, find is_jarray (j_entries [camel (ae_flag e)]) = Some je /\ noop_array (handler_name je) = true) /\
+  j_entries [camel (ae_flag e)] <> [] /\ scalar_ok_on (j_entries [camel (ae_flag e); ARRK]) e = true /\
+  schema_node [camel (ae_flag e)] = Some SArray /\ schema_node [camel (ae_flag e); ARRK] = Some SString.
+Proof.
+  intros e Hin Hs. pose proof json_array_entries_ok as H. rewrite forallb_forall in H.
+  apply array_facts_inv. apply (H e). apply filter_In. auto.
+Qed.
+
+(* ---- arrays *)
+Definition arr_go (p : list bstr) : list jjv -> jstate -> jstep :=
+  fix go (l : list jjv) (s : jstate) : jstep :=
+    match l with
+    | [] => JOk s
+    | x :: rest =>
+        match x with
+        | JJArr _ => JErr s (EFront 22)
+        | _ => match j_handle p x s with
+               | JOk s' => go rest s'
+               | JErr s' en => JErr s' en
+               end
+        end
+    end.
+
+Lemma arr_go_nil : forall p s, arr_go p [] s = JOk s.
+Proof. reflexivity. Qed.
+Lemma arr_go_str : forall p x rest s,
+  arr_go p (JJStr x :: rest) s = match j_handle p (JJStr x) s with JOk s' => arr_go p rest s' | JErr s' en => JErr s' en end.
+Proof. reflexivity. Qed.
+
+Lemma j_handle_arr_eq : forall p items s,
+  j_handle p (JJArr items) s =
+  match find is_jmanual (j_entries p) with
+  | Some e => if is_ignore (handler_name e) then JOk s else JErr s (EFront 22)
+  | None =>
+    match find is_jarray (j_entries p) with
+    | None => JErr s (EFront 22)
+    | Some e =>
+        match j_begin_array (handler_name e) s with
+        | JErr s' en => JErr s' en
+        | JOk s1 =>
+            match arr_go (p ++ [ARRK]) items s1 with
+            | JOk s2 => j_end_array (handler_name e) s2
+            | JErr s' en => JErr s' en
+            end
+        end
+    end
+  end.
+Proof. intros. reflexivity. Qed.
+
+Lemma noop_array_begin_end : forall h s, noop_array h = true -> j_begin_array h s = JOk s /\ j_end_array h s = JOk s.
+Proof.
+  intros h s H. unfold noop_array in H. apply andb_true_iff in H. destruct H as [H1 H2].
+  apply negb_true_iff in H1. apply negb_true_iff in H2.
+  unfold j_begin_array, j_end_array. rewrite H1, H2. split; reflexivity.
+Qed.
+
+Lemma arr_go_vals : forall e p, main_opt e = true -> choices_shape e = true -> scalar_ok_on (j_entries p) e = true ->
+  forall vs s,
+  arr_go p (map JJStr vs) s =
+  if snd (denote_vals e vs) then JOk (j_emits (fst (denote_vals e vs)) s)
+  else JErr (j_emits (fst (denote_vals e vs)) s) (EFront (jrej_kind e)).
+Proof.
+  intros e p Hm Hshape Hok. induction vs as [|v vs IH]; intros s.
+  - reflexivity.
+  - cbn [map denote_vals]. rewrite arr_go_str. rewrite (j_handle_str e p v s Hm Hshape Hok).
+    destruct (opt_denote e v) as [c|].
+    + rewrite IH. destruct (denote_vals e vs) as [cs ok]. cbn. reflexivity.
+    + reflexivity.
+Qed.
+
+(* ---- the named keys of the hand-written handlers *)
+Lemma manual_key_facts :
+  find is_jmanual (j_entries [B"inputFile"]) = Some (mk_jentry [B"inputFile"] JManual [] (TManual B"setupInputFile")) /\
+  find is_jmanual (j_entries [B"outputFile"]) = Some (mk_jentry [B"outputFile"] JManual [] (TManual B"setupOutputFile")) /\
+  find is_jmanual (j_entries [B"empty"]) = Some (mk_jentry [B"empty"] JManual [] (TManual B"setupEmpty")) /\
+  find is_jmanual (j_entries [B"replaceInput"]) = Some (mk_jentry [B"replaceInput"] JManual [] (TManual B"setupReplaceInput")) /\
+  is_nil (j_entries [B"inputFile"]) = false /\ is_nil (j_entries [B"outputFile"]) = false /\
+  is_nil (j_entries [B"empty"]) = false /\ is_nil (j_entries [B"replaceInput"]) = false /\
+  schema_has_child [] B"inputFile" = true /\ schema_has_child [] B"outputFile" = true /\
+  schema_has_child [] B"empty" = true /\ schema_has_child [] B"replaceInput" = true /\
+  schema_node [B"inputFile"] = Some SString /\ schema_node [B"outputFile"] = Some SString /\
+  schema_node [B"empty"] = Some SString /\ schema_node [B"replaceInput"] = Some SString.
+Proof. vm_compute. repeat split; reflexivity. Qed.
+
+Lemma j_handle_manual : forall p x s jm, find is_jmanual (j_entries p) = Some jm -> is_ignore (handler_name jm) = false ->
+  j_handle p (JJStr x) s = j_manual_string (handler_name jm) x s.
+Proof.
+  intros. rewrite j_handle_str_eq. unfold j_string_at. rewrite H. rewrite H0. reflexivity.
+Qed.
+
+Lemma manual_member : forall (k h x : bstr) s c,
+  find is_jmanual (j_entries [k]) = Some (mk_jentry [k] JManual [] (TManual h)) -> is_nil (j_entries [k]) = false ->
+  schema_has_child [] k = true -> schema_node [k] = Some SString -> is_ignore h = false ->
+  j_manual_string h x s = JOk (j_emit c s) ->
+  (if schema_has_child [] k then check_schema [k] (JJStr x) else false) = true /\
+  j_entries [k] <> [] /\
+  j_handle [k] (JJStr x) s = JOk (j_emits [c] s).
+Proof.
+  intros k h x s c M N C S I J. rewrite C. rewrite check_schema_str. cbv beta iota. rewrite S.
+  split; [reflexivity|]. split.
+  { intro H. rewrite H in N. discriminate. }
+  rewrite (j_handle_manual [k] x s _ M I). exact J.
+Qed.
+
+Definition jitem_rej (it : item) : N := match it with IOpt e _ | IArr e _ => jrej_kind e | _ => 0 end.
+
+Lemma argv_ok_shape : forall e, argv_entry_ok e = true -> choices_shape e = true.
+Proof.
+  intros e H. unfold argv_entry_ok in H.
+  apply andb_true_iff in H; destruct H as [H _]. apply andb_true_iff in H; destruct H as [H _].
+  apply andb_true_iff in H; destruct H as [_ H]. exact H.
+Qed.
+
+(* one member of the job object: accepted by the schema, and handled with exactly the calls of its denotation *)
+Lemma j_member : forall it s, wf_item argv_table it ->
+  let k := fst (json_of_item it) in let v := snd (json_of_item it) in
+  (if schema_has_child [] k then check_schema [k] v else false) = true /\
+  j_entries [k] <> [] /\
+  j_handle [k] v s =
+  if snd (denote_item it) then JOk (j_emits (fst (denote_item it)) s)
+  else JErr (j_emits (fst (denote_item it)) s) (EFront (jitem_rej it)).
+Proof.
+  intros it s Hwf. destruct manual_key_facts as
+    [M1 [M2 [M3 [M4 [N1 [N2 [N3 [N4 [C1 [C2 [C3 [C4 [S1 [S2 [S3 S4]]]]]]]]]]]]]]].
+  destruct it as [e v|e vs|f|f| |]; cbn [json_of_item fst snd denote_item jitem_rej].
+  - (* IOpt *)
+    destruct Hwf as [Hin Hs].
+    assert (Hm : main_opt e = true) by (unfold main_opt; rewrite Hs; reflexivity).
+    pose proof (argv_ok_shape e (entry_ok_of_wf e Hin Hm)) as Hshape.
+    destruct (json_scalar_facts e Hin Hs) as [Hc [Hok Hn]].
+    destruct (scalar_ok_on_inv _ _ Hok) as [Hne _].
+    rewrite Hc. rewrite check_schema_str. rewrite Hn. split; [reflexivity|]. split; [exact Hne|].
+    rewrite (j_handle_str e _ v s Hm Hshape Hok). destruct (opt_denote e v); reflexivity.
+  - (* IArr *)
+    destruct Hwf as [Hin Ha].
+    assert (Hm : main_opt e = true) by (unfold main_opt; rewrite Ha; apply orb_true_r).
+    pose proof (argv_ok_shape e (entry_ok_of_wf e Hin Hm)) as Hshape.
+    destruct (json_array_facts e Hin Ha) as [Hc [Hman [[je [Harr Hnoop]] [Hne [Hok [Hn1 Hn2]]]]]].
+    rewrite Hc. rewrite (check_schema_arr _ _ Hn1). rewrite (all_items_str _ vs Hn2). split; [reflexivity|]. split; [exact Hne|].
+    rewrite j_handle_arr_eq. rewrite Hman, Harr.
+    destruct (noop_array_begin_end (handler_name je) s Hnoop) as [Hb _]. rewrite Hb.
+    cbn [app]. rewrite (arr_go_vals e _ Hm Hshape Hok vs s).
+    destruct (denote_vals e vs) as [cs ok]. cbn [fst snd]. destruct ok; [|reflexivity].
+    destruct (noop_array_begin_end (handler_name je) (j_emits cs s) Hnoop) as [_ He]. exact He.
+  - (* IIn *)
+    apply (manual_member B"inputFile" B"setupInputFile" f s _ M1 N1 C1 S1); reflexivity.
+  - (* IOut *)
+    apply (manual_member B"outputFile" B"setupOutputFile" f s _ M2 N2 C2 S2); reflexivity.
+  - (* IEmpty *)
+    apply (manual_member B"empty" B"setupEmpty" [] s _ M3 N3 C3 S3); reflexivity.
+  - (* IReplace *)
+    apply (manual_member B"replaceInput" B"setupReplaceInput" [] s _ M4 N4 C4 S4); reflexivity.
+Qed.
+
+Lemma members_ok_job : forall j, Forall (wf_item argv_table) j -> members_ok (map json_of_item j) = true.
+Proof.
+  induction j as [|it j IH]; intros H; [reflexivity|]. inversion H as [|? ? Hit Hj]; subst.
+  cbn [map members_ok]. destruct (json_of_item it) as [k v] eqn:Hk.
+  destruct (j_member it (mk_jstate [] false []) Hit) as [H1 _]. rewrite Hk in H1. cbn [fst snd] in H1.
+  rewrite H1. exact (IH Hj).
+Qed.
+
+Lemma j_emits_app : forall c1 c2 s, j_emits (c1 ++ c2) s = j_emits c2 (j_emits c1 s).
+Proof. induction c1; simpl; intros c2 s; [reflexivity|apply IHc1]. Qed.
+
+Lemma j_top_job : forall j s, Forall (wf_item argv_table) j ->
+  exists k, j_top_members (map json_of_item j) s =
+  if snd (denote_items j) then JOk (j_emits (fst (denote_items j)) s)
+  else JErr (j_emits (fst (denote_items j)) s) (EFront k).
+Proof.
+  induction j as [|it j IH]; intros s H.
+  - exists 0. reflexivity.
+  - inversion H as [|? ? Hit Hj]; subst.
+    cbn [map j_top_members denote_items]. destruct (json_of_item it) as [k v] eqn:Hk.
+    destruct (j_member it s Hit) as [_ [Hne Hh]]. rewrite Hk in Hne, Hh. cbn [fst snd] in Hne, Hh.
+    destruct (j_entries [k]) as [|je0 es0] eqn:Hes; [congruence|].
+    rewrite Hh. destruct (denote_item it) as [cs ok]. cbn [fst snd]. destruct ok.
+    + destruct (IH (j_emits cs s) Hj) as [k2 IH2]. exists k2. rewrite IH2.
+      destruct (denote_items j) as [cs2 ok2]. cbn [fst snd]. rewrite j_emits_app. reflexivity.
+    + exists (jitem_rej it). reflexivity.
+Qed.
+
+Lemma json_refines_spec_partial_lemma : forall j, Forall (wf_item argv_table) j ->
+  res_is (front_json false (render_json j)) [] (fst (denote_items j)) (snd (denote_items j)).
+Proof.
+  intros j Hwf. unfold front_json, render_json. rewrite check_schema_top. rewrite (members_ok_job j Hwf). cbn [negb].
+  destruct (j_top_job j (mk_jstate [] false []) Hwf) as [k Hk]. rewrite Hk.
+  unfold res_is. destruct (denote_items j) as [cs ok]. cbn [fst snd]. destruct ok.
+  - rewrite rev'_rev. cbn [rev]. rewrite j_emits_calls. cbn [j_calls]. rewrite app_nil_r, rev_involutive. reflexivity.
+  - exists k. rewrite rev'_rev, j_emits_calls. cbn [j_calls]. rewrite app_nil_r, rev_involutive. reflexivity.
+Qed.
+
+(* nested_equivalent (see the FULL STATEMENT above argv_refines_spec_partial): command line and job JSON make the same Config calls,
+   and one is rejected as a usage error iff the other is *)
+Lemma nested_equivalent_partial_lemma : forall files j, wf_job argv_table j ->
+  r_calls (front_argv files (render_argv j)) = r_calls (front_json false (render_json j)) /\
+  ((r_end (front_argv files (render_argv j)) = EFin /\ r_end (front_json false (render_json j)) = EFin) \/
+   (exists k1 k2, r_end (front_argv files (render_argv j)) = EFront k1 /\ r_end (front_json false (render_json j)) = EFront k2)).
+Proof.
+  intros files j Hwf. pose proof (argv_refines_spec_partial_lemma files j Hwf) as HA.
+  destruct Hwf as [Hwf _]. pose proof (json_refines_spec_partial_lemma j Hwf) as HJ.
+  unfold res_is in *. destruct (snd (denote_items j)).
+  - rewrite HA, HJ. cbn. split; [reflexivity|]. left. split; reflexivity.
+  - destruct HA as [k1 HA]. destruct HJ as [k2 HJ]. rewrite HA, HJ. cbn. split; [reflexivity|]. right. exists k1, k2. split; reflexivity.
+Qed.
+
+(* usage_errors_agree: a job is rejected by the argv front end iff it is rejected by the JSON front end (same jobs as above) *)
+Definition is_front_usage (r : fe_res) : Prop := exists k, r_end r = EFront k.
+Lemma usage_errors_agree_partial_lemma : forall files j, wf_job argv_table j ->
+  is_front_usage (front_argv files (render_argv j)) <-> is_front_usage (front_json false (render_json j)).
+Proof.
+  intros files j Hwf. destruct (nested_equivalent_partial_lemma files j Hwf) as [_ [[H1 H2]|[k1 [k2 [H1 H2]]]]]; unfold is_front_usage.
+  - rewrite H1, H2. split; intros [k Hk]; discriminate.
+  - rewrite H1, H2. split; intros _; eauto.
+Qed.
+
+(* ------------------------------------------------------------------ the full statements are false on the faithful model: witnesses *)
+(* without the positional discipline of wf_pos: "empty" followed by "inputFile" is accepted by the JSON front end (Config calls
+   emptyInput, inputFile, outputFile, then the consistency check) while the command line rejects the second positional word *)
+Lemma empty_with_input_refuted_lemma :
+  exists j, Forall (wf_item argv_table) j /\
+            r_end (front_json false (render_json j)) = EFin /\ r_end (front_argv [] (render_argv j)) = EFront 7.
+Proof.
+  exists [IEmpty; IIn B"A.pdf"; IOut B"out.pdf"]. split.
+  - repeat constructor.
+  - vm_compute. split; reflexivity.
+Qed.
+
+(* over the nested tables: 40-bit encryption, --modify=y is accepted on the command line, "modify": "y" is a usage error in job JSON
+   (and "modify": "all" the other way round) - the divergence of the generated tables (tables_equivalent_refuted) seen through the
+   front-end models *)
+Lemma nested_equivalent_refuted_lemma :
+  r_end (front_argv [] [B"A.pdf"; B"out.pdf"; B"--encrypt"; B"u"; B"o"; B"40"; B"--modify=y"; B"--"]) = EFin /\
+  r_end (front_json false (JJObj [(B"encrypt", JJObj [(B"40bit", JJObj [(B"modify", JJStr B"y")]);
+                                                       (B"ownerPassword", JJStr B"o"); (B"userPassword", JJStr B"u")]);
+                                  (B"inputFile", JJStr B"A.pdf"); (B"outputFile", JJStr B"out.pdf")])) = EFront 21 /\
+  r_end (front_argv [] [B"A.pdf"; B"out.pdf"; B"--encrypt"; B"u"; B"o"; B"40"; B"--modify=all"; B"--"]) = EFront 2 /\
+  r_end (front_json false (JJObj [(B"encrypt", JJObj [(B"40bit", JJObj [(B"modify", JJStr B"all")]);
+                                                       (B"ownerPassword", JJStr B"o"); (B"userPassword", JJStr B"u")]);
+                                  (B"inputFile", JJStr B"A.pdf"); (B"outputFile", JJStr B"out.pdf")])) = EFin.
+Proof. vm_compute. repeat split; reflexivity. Qed.
+
+(* a single object / string where the schema has a one-element array passes JSON::checkSchema and reaches the item handler without the
+   array's begin/end handlers: "pages": {...} dereferences the null c_pages; "setPageLabels": "1:r" never calls setPageLabels *)
+Lemma json_single_item_refuted_lemma :
+  r_end (front_json false (JJObj [(B"inputFile", JJStr B"A.pdf"); (B"outputFile", JJStr B"out.pdf");
+                                  (B"pages", JJObj [(B"file", JJStr B"B.pdf")])])) = ECrash /\
+  front_json false (JJObj [(B"inputFile", JJStr B"A.pdf"); (B"outputFile", JJStr B"out.pdf"); (B"setPageLabels", JJStr B"1:r")]) =
+  mk_fe_res [CCall C_MAIN B"inputFile" [B"A.pdf"]; CCall C_MAIN B"outputFile" [B"out.pdf"]; CHECK] EFin /\
+  r_calls (front_argv [] [B"A.pdf"; B"out.pdf"; B"--set-page-labels"; B"1:r"; B"--"]) =
+  [CCall C_MAIN B"inputFile" [B"A.pdf"]; CCall C_MAIN B"outputFile" [B"out.pdf"]; CCall C_MAIN B"setPageLabels" [B"1:r"]; CHECK].
+Proof. vm_compute. repeat split; reflexivity. Qed.
+
+Lemma in_by_compute : forall e l, existsb (fun x => aentry_same x e) l = true -> In e l.
+Proof.
+  intros e l H. apply existsb_exists in H. destruct H as [x [Hin Hs]]. apply aentry_same_eq in Hs. subst. exact Hin.
 Qed.
